@@ -948,3 +948,98 @@ Proof.
 Qed.
 
 End PipelineFacts.
+
+(* ------------------------------------------------------------------ *)
+(* argmin_first: the declarative meaning of the selection rule *)
+Record amin (pre : list pyf) (cur : pyf) (curi : option nat) : Prop := mkAmin {
+  am_notnan : cur <> NaN;
+  am_min : forall y, In y pre -> flt y cur = false;
+  am_pos : match curi with
+           | None => cur = PInf
+           | Some p => nth_error pre p = Some cur /\ flt cur PInf = true /\
+                       forall j y, j < p -> nth_error pre j = Some y -> flt cur y = true \/ y = NaN
+           end
+}.
+
+Lemma amin_step pre cur curi x :
+  amin pre cur curi ->
+  if flt x cur then amin (pre ++ [x]) x (Some (length pre)) else amin (pre ++ [x]) cur curi.
+Proof.
+  intros [Hn Hm Hp]. destruct (flt x cur) eqn:Hlt.
+  - constructor.
+    + destruct (flt_fin _ _ Hlt) as [k ->]. discriminate.
+    + intros y Hy. apply in_app_or in Hy as [Hy|[<-|[]]].
+      * eapply flt_keep; [exact Hlt|apply Hm, Hy].
+      * apply flt_irrefl.
+    + split; [apply nth_error_snoc_eq|]. split.
+      * destruct (flt_fin _ _ Hlt) as [k ->]. reflexivity.
+      * intros j y Hj Hy. rewrite nth_error_app1 in Hy by exact Hj.
+        eapply flt_new_best; [exact Hlt|]. apply Hm. eapply nth_error_In, Hy.
+  - constructor.
+    + exact Hn.
+    + intros y Hy. apply in_app_or in Hy as [Hy|[<-|[]]]; [apply Hm, Hy|exact Hlt].
+    + destruct curi as [p|]; [|exact Hp]. destruct Hp as (H1 & H2 & H3).
+      assert (Hlen : p < length pre) by (apply nth_error_Some; congruence).
+      split; [rewrite nth_error_app1 by exact Hlen; exact H1|]. split; [exact H2|].
+      intros j y Hj Hy. rewrite nth_error_app1 in Hy by lia. eapply H3; eassumption.
+Qed.
+
+Lemma argmin_from_amin l : forall pre cur curi,
+  amin pre cur curi -> exists cur', amin (pre ++ l) cur' (argmin_from cur curi (length pre) l).
+Proof.
+  induction l as [|x l IH]; intros pre cur curi A; cbn.
+  - exists cur. rewrite app_nil_r. exact A.
+  - pose proof (amin_step pre cur curi x A) as S.
+    replace (pre ++ x :: l) with ((pre ++ [x]) ++ l) by (rewrite <- app_assoc; reflexivity).
+    replace (Datatypes.S (length pre)) with (length (pre ++ [x])) by (rewrite app_length; cbn; lia).
+    destruct (flt x cur); eapply IH; exact S.
+Qed.
+
+Lemma argmin_first_spec l :
+  match argmin_first l with
+  | Some i => exists x, nth_error l i = Some x /\ flt x PInf = true /\
+                (forall y, In y l -> flt y x = false) /\
+                (forall j y, j < i -> nth_error l j = Some y -> flt x y = true \/ y = NaN)
+  | None => forall y, In y l -> flt y PInf = false
+  end.
+Proof.
+  unfold argmin_first.
+  destruct (argmin_from_amin l [] PInf None) as [cur A].
+  { constructor; [discriminate|intros y []|reflexivity]. }
+  cbn in A. destruct A as [Hn Hm Hp]. destruct (argmin_from PInf None 0 l) as [i|].
+  - destruct Hp as (H1 & H2 & H3). exists cur. repeat split; assumption.
+  - subst cur. exact Hm.
+Qed.
+
+(* the winner kept by the optimizer sits at position argmin_first of the recorded scores *)
+Lemma inv_best_position T tr st : inv T tr st ->
+  match argmin_first (h_scores st), h_best st with
+  | Some i, Some (b, s) => exists id, nth_error tr i = Some (id, s, b)
+  | None, None => True
+  | _, _ => False
+  end.
+Proof.
+  intros I. pose proof (argmin_first_spec (h_scores st)) as A.
+  pose proof (inv_best _ _ _ I) as B. pose proof (inv_min _ _ _ I) as M.
+  rewrite (inv_scores _ _ _ I) in *. unfold best_score_of in M.
+  destruct (argmin_first (scores_of T tr)) as [i|], (h_best st) as [[b s]|].
+  - destruct A as (x & Hx & Hxf & Hxmin & Hxfirst). destruct B as (i' & id & Hn & Hbf & Hbfirst).
+    assert (Hsc : nth_error (scores_of T tr) i' = Some (score_of b)).
+    { unfold scores_of. rewrite nth_error_map, Hn. reflexivity. }
+    assert (i = i').
+    { destruct (Nat.lt_trichotomy i i') as [Hlt|[E|Hgt]]; [|exact E|].
+      - exfalso. unfold scores_of in Hx. rewrite nth_error_map in Hx.
+        destruct (nth_error tr i) as [e|] eqn:Ee; [|discriminate]. injection Hx as Hx.
+        destruct (Hbfirst i e Hlt Ee) as [H|H].
+        + rewrite Hx in H. rewrite (Hxmin (score_of b)) in H; [discriminate|]. eapply nth_error_In, Hsc.
+        + rewrite Hx in H. rewrite H in Hxf. cbn in Hxf. discriminate Hxf.
+      - exfalso. destruct (Hxfirst i' _ Hgt Hsc) as [H|H].
+        + rewrite (M x) in H; [discriminate|]. eapply nth_error_In, Hx.
+        + rewrite H in Hbf. cbn in Hbf. discriminate Hbf. }
+    subst i'. exists id. exact Hn.
+  - destruct A as (x & Hx & Hxf & _). rewrite (B x) in Hxf; [discriminate|]. eapply nth_error_In, Hx.
+  - destruct B as (i' & id & Hn & Hbf & _).
+    rewrite (A (score_of b)) in Hbf; [discriminate|].
+    unfold scores_of. apply nth_error_In in Hn. apply (in_map (fun e => score_of (e_trial e))) in Hn. exact Hn.
+  - exact Logic.I.
+Qed.
